@@ -171,6 +171,7 @@ Proof.
   destruct (beq (upper b) (bs "AUTH")).
   { destruct (auth_per_connection _ _ _ _ _ H) as (Hd' & _). unfold get_db. rewrite Hd'. reflexivity. }
   destruct (beq (upper b) (bs "QUIT")); [inversion H; subst; reflexivity|].
+  destruct (beq (upper b) (bs "VERIF")); [inversion H; subst; reflexivity|].
   destruct (exec_db now (get_db s0 dbi) (upper b) (FBulk b :: rest) oracle) as [[r0 d']|];
     inversion H; subst; [|reflexivity].
   rewrite get_db_set_trk. apply get_db_set_db_other; lia.
@@ -332,6 +333,7 @@ Proof.
   destruct (beq (upper b) (bs "AUTH")).
   { destruct (auth_per_connection _ _ _ _ _ H) as (_ & _ & _ & _ & Hc'). apply Hc'. exact H0. }
   destruct (beq (upper b) (bs "QUIT")); [inversion H; subst; reflexivity|].
+  destruct (beq (upper b) (bs "VERIF")); [inversion H; subst; reflexivity|].
   destruct (exec_db now (get_db s0 dbi) (upper b) (FBulk b :: rest) oracle) as [[r0 d']|];
     inversion H; subst; reflexivity.
 Qed.
